@@ -219,7 +219,22 @@ def r5_lazy_content_packs(cx):
     cx.ob("R5", "R5/missing-is-not-cached", ok, g, "informational: get_pack caches only a FOUND pack in its slot; a MISSING answer is recomputed next time (the pack may appear later)", info=True)
 
 
+def r6_only_found_packs_are_remembered(cx):
+    """'an unavailable pack is reported as missing' -- every time it is asked for, and only that pack: the container keeps
+    one piece of state between two requests, the table of packs it has *found* (`Vec<OnceLock<ContentPack>>`, filled once,
+    by pack id). It has no other interior-mutable field in which a miss could be remembered (by location, by name ..) and
+    later answered for another pack that is there."""
+    F = cx.F
+    st = F.struct("reader::jubako::Container")
+    mut = [(fl["name"], fl["ty"]) for fl in st["fields"] if re.search(r"\b(Mutex|RwLock|RefCell|Cell|OnceLock|OnceCell|Atomic\w+|UnsafeCell)\b", fl["ty"])
+           and not re.match(r"^std::sync::Arc<reader::", fl["ty"])]
+    ok = all(re.search(r"^std::vec::Vec<std::sync::OnceLock<reader::content_pack::ContentPack>>$", ty) for _, ty in mut) and len(mut) == 1
+    cx.ob("R6", "R6/Container/only-found-packs-are-remembered", ok, "src/reader/jubako.rs (struct Container)",
+          "the only interior-mutable state of Container is the table of found packs (fields with interior mutability: %s)" % mut)
+
+
 RULES = [
+    ("R6", r6_only_found_packs_are_remembered, 1),
     ("R1", r1_three_way, 8),
     ("R2", r2_absent_is_none, 2),
     ("R3", r3_identity, 1),
